@@ -63,3 +63,9 @@ Check (C15_alloc_maintain_exact :
 Check (C15_nonfresh_id_refuted :
   let w := sl_run 3 sl_empty [SCreate false; SCreate false; SMark (0, 1%Z); SMarkId (1, 1%Z) 0] in
   mk_get w (0, 1%Z) = Some 0 /\ mk_get w (1, 1%Z) = Some 0).
+Check (C15_u64_wrap_refuted :
+  let w0 := sl_run 3 sl_empty [SCreate false; SCreate false; SCreate false] in
+  let w1 := ma_mark_wrap w0 (0, 1%Z) None in
+  let w2 := ma_mark_wrap w1 (1, 1%Z) (Some (U64 - 1)) in
+  let w3 := ma_mark_wrap w2 (2, 1%Z) None in
+  mk_get w3 (0, 1%Z) = Some 0 /\ mk_get w3 (2, 1%Z) = Some 0 /\ sl_index w2 = 0 /\ sl_index w3 = 1).
